@@ -311,6 +311,7 @@ func runC10(c *vx.Ctx) {
 		if c.Wants("lockups") {
 			c10Lockups(c)
 		}
+		c10MapOrder(c)
 		return
 	}
 	p := c.Part("branch-pairs")
@@ -356,6 +357,10 @@ func runC10(c *vx.Ctx) {
 			}
 			if c.Expired() {
 				p.Incomplete("deadline")
+				if c.Wants("lockups") {
+					c10Lockups(c)
+				}
+				c10MapOrder(c)
 				return
 			}
 			p.Transitions += int64(rounds)
@@ -381,9 +386,13 @@ func runC10(c *vx.Ctx) {
 	if c.Wants("lockups") {
 		c10Lockups(c)
 	}
+	c10MapOrder(c)
 }
 
 func replayC10(c *vx.Ctx, v vx.Violation) string {
+	if v.Part == "map-order" {
+		return replayViaVqm(v)
+	}
 	core.VScaleParams(core.VR1)
 	raw, _ := jsonMarshal(v.Replay)
 	if v.Part == "lockups" {
